@@ -406,3 +406,41 @@ Qed.
 (* the numbers of the statement: 7 minutes, 11 minutes, 18 minutes (in nanoseconds) *)
 Lemma reobs_numbers : reobs_period = 7 * 60 * 10 ^ 9 /\ reobs_window = 11 * 60 * 10 ^ 9 /\ reobs_window + reobs_period = 18 * 60 * 10 ^ 9.
 Proof. repeat split; reflexivity. Qed.
+
+(* ------------------------------------------------------------------ concurrent posts *)
+Lemma post_is_atomic : post_atomic = true.
+Proof. reflexivity. Qed.
+
+Definition settled (ps : pstate) : Prop := ps = PStart \/ ps = PDone PostOk \/ ps = PDone PostErrChanFull.
+
+Lemma pstep_settled cap items ps r : settled ps -> settled (snd (pstep cap items ps r)).
+Proof.
+  intros [E|[E|E]]; subst ps; cbn [pstep]; [|right; left; reflexivity|right; right; reflexivity].
+  rewrite post_is_atomic. unfold post. destruct (cap <=? length items)%nat; cbn [snd]; [rewrite post_is_nonblocking; right; right; reflexivity|right; left; reflexivity].
+Qed.
+
+Lemma set_nth_Forall {A} (P : A -> Prop) : forall l i x, Forall P l -> P x -> Forall P (set_nth l i x).
+Proof.
+  induction l as [|h t IH]; intros i x Hl Hx; [constructor|]. inversion Hl; subst. destruct i as [|j]; cbn [set_nth]; constructor; auto.
+Qed.
+
+(* however the steps of any number of concurrent callers interleave, no caller is ever between a passed fullness test and
+   its send: nobody can be stalled on a full queue, every finished call returned nil or ErrChanFull *)
+Theorem posts_never_stall cap reqs : forall sched items pss, Forall settled pss ->
+  Forall settled (snd (psched cap reqs items pss sched)).
+Proof.
+  induction sched as [|i rest IH]; intros items pss H; [exact H|]. cbn [psched].
+  destruct (nth_error pss i) as [ps|] eqn:E; [|apply IH; exact H].
+  destruct (pstep cap items ps (nth i reqs _)) as [items' ps'] eqn:Es. apply IH. apply set_nth_Forall; [exact H|].
+  assert (Hs : settled ps) by (rewrite Forall_forall in H; apply H; eapply nth_error_In; exact E).
+  pose proof (pstep_settled cap items ps (nth i reqs {| r_chain := 0; r_tx := [] |}) Hs) as H'. rewrite Es in H'. exact H'.
+Qed.
+
+Corollary posts_never_stall_from_start cap reqs n sched items :
+  let '(items', pss) := psched cap reqs items (repeat PStart n) sched in Forall (fun ps => stalled cap items' ps = false) pss.
+Proof.
+  pose proof (posts_never_stall cap reqs sched items (repeat PStart n)) as H.
+  destruct (psched cap reqs items (repeat PStart n) sched) as [items' pss]. cbn [snd] in H.
+  assert (H0 : Forall settled (repeat PStart n)) by (apply Forall_forall; intros x Hx; apply repeat_spec in Hx; left; exact Hx).
+  specialize (H H0). rewrite Forall_forall in *. intros ps Hps. destruct (H ps Hps) as [E|[E|E]]; subst ps; reflexivity.
+Qed.
